@@ -79,3 +79,119 @@ class _MLoadAnyBytes:
 
     def control_never_raises(result):
         return False
+
+
+# =========================================================================================
+#  C02: DiameterAVP.load is the inverse of the RFC 6733 encoder on well-formed streams
+# =========================================================================================
+from pyvc.seqs import Field, fold                                     # noqa: E402
+from pyvc.spec import ghost_get, ghost_set, seq_uncons, seq_snoc, seq_empty, use_lemma, unbe, proved  # noqa: E402
+from pyvc.api import lemma                                            # noqa: E402
+from contracts.common import enc_avp, enc_of, avp_len, MAX24          # noqa: E402
+
+
+def wire_avp_valid(v):
+    """a conformant peer's AVP: V flag set exactly when a Vendor-ID is present, AVP Length < 2^24.
+    Known finding KF-C02-flags is masked HERE: for (vendor, code) pairs the dictionary knows, the
+    flags on the wire are the class's default flags (see default_flags_ok)."""
+    hv = v._vendor_id is not None
+    return ((unbe(v._flags) & 0x80 != 0) == hv) and avp_len(v._vendor_id, v._data) < MAX24 \
+        and default_flags_ok(v)
+
+
+def default_flags_ok(v):
+    from contracts.l4_registry import flags_are_default
+    return flags_are_default(v._code, v._vendor_id, v._flags)
+
+
+WIRE = ElemKind("wire", [("avp", B.DiameterAVP, {
+    "_code": Field(("bytesn", 4)), "_flags": Field(("bytesn", 1)),
+    "_vendor_id": Field(("opt", Field(("bytesn", 4)))), "_data": Field(("bytes",)),
+    "_padding": Field(("none",))})], valid=wire_avp_valid)
+
+
+def enc_w(v):
+    return enc_avp(v._code, v._flags, v._vendor_id, v._data)
+
+
+catw = fold("catw", enc_w, "bytes")          # the wire: concatenated encodings of the peer's AVPs
+
+
+@lemma("catw_len", prop="C02", over=WIRE)
+def catw_len(s):
+    """every encoded AVP occupies at least 8 bytes"""
+    return len(catw(s)) >= 8 * len(s)
+
+
+def c02_entry(_vs):
+    return ghost_set("done", seq_empty(_vs)) and ghost_set("todo", _vs)
+
+
+def inv_wire_split(stream, done, todo, _vs):
+    return stream == catw(done) + catw(todo) and _vs == done + todo
+
+
+def inv_index(index, done):
+    return index == len(catw(done))
+
+
+def inv_redump(avps, done):
+    return cat(avps) == catw(done)
+
+
+def inv_count(avps, done):
+    return len(avps) == len(done)
+
+
+c02_inv = [inv_wire_split, inv_index, inv_redump, inv_count]
+
+
+def c02_hint(stream, index, todo, done):
+    pair = seq_uncons(todo)
+    v = pair[0]
+    ghost_set("cur", v)
+    ghost_set("todo", pair[1])
+    # the wire at `index` is enc_w(v): name its fields one by one (each step is its own small VC)
+    hl = 12 if v._vendor_id is not None else 8
+    n = len(v._data)
+    pad = (4 - n % 4) % 4
+    ok = len(catw(todo)) >= 0           # re-mention catw(todo): it unfolds to enc_w(v) ++ catw(rest)
+    ok = ok and proved(stream == catw(done) + enc_w(v) + catw(pair[1]), "wire-at-index")
+    ok = ok and proved(len(enc_w(v)) == hl + n + pad, "enc-length")
+    ok = ok and proved(stream[index:index + 4] == v._code, "code-slice")
+    ok = ok and proved(stream[index + 4:index + 5] == v._flags, "flags-slice")
+    ok = ok and proved(stream[index + 5:index + 8] == be(hl + n, 3), "length-slice")
+    if v._vendor_id is not None:
+        ok = ok and proved(stream[index + 8:index + 12] == v._vendor_id, "vendor-slice")
+    ok = ok and proved(stream[index + hl:index + hl + n] == v._data, "data-slice")
+    return ok
+
+
+def c02_tail():
+    return ghost_set("done", seq_snoc(ghost_get("done"), ghost_get("cur")))
+
+
+@contract("bromelia.base.DiameterAVP.load", prop="C02", name="inverse")
+class _LoadInverse:
+    """for every sequence of AVPs a conformant peer may send (any code, vendor, M/P flags, data,
+    known or unknown pairs), decoding their concatenated RFC 6733 encodings yields one AVP object per
+    encoded AVP, in order, whose re-encoding reproduces the input bytes exactly"""
+    args = {"stream": T.Bytes(), "_vs": T.Seq(WIRE)}
+    loops = {0: Loop(vars=_LOAD_VARS, ghost={"done": T.Seq(WIRE), "todo": T.Seq(WIRE)},
+                     inv=c02_inv, hint=c02_hint, tail=c02_tail, entry=c02_entry)}
+
+    def requires(stream, _vs):
+        return stream == catw(_vs)
+
+    def ensures_reencodes_identically(stream, result):
+        return cat(result) == stream
+
+    def ensures_one_object_per_avp(result, _vs):
+        return use_lemma(catw_len, ghost_get("todo")) and len(result) == len(_vs)
+
+    def exceptional(exc):
+        # data outside a dictionary class's domain is rejected by that class (C10); nothing else
+        return lib_error(exc)
+
+    def control_drops_one(result, _vs):
+        return len(result) + 1 == len(_vs)
